@@ -635,6 +635,8 @@ runLoop:
 				}
 			}
 			if processedUndecryptablePacket {
+				// The packets might have acknowledged data and thereby allow us to send again.
+				c.scheduleSending()
 				// if we processed any undecryptable packets, jump to the resetting of the timers directly
 				continue
 			}
